@@ -252,3 +252,114 @@ def eval_tuple(triples, tier, rng):
         if p != text:
             fails.append({'what': 'Version::from((%s) as %s) prints as `%s`, not `%s`' % (', '.join(map(str, nums)), ty, p, text), 'case': c, 'input': [ty] + nums, 'kind': 'tuple-print'})
     return {'failures': fails[:40], 'nontrivial': nontrivial, 'distribution': dist, 'certs': certs}
+
+# ------------------------------------------------------------------ C17
+def py_line_col(s, off):
+    b = s.encode('utf-8')
+    prefix = b[:off]
+    line = prefix.count(b'\n')
+    last = prefix.rfind(b'\n')
+    return (line, off - (last + 1))
+def is_boundary(s, off):
+    b = s.encode('utf-8')
+    if off < 0 or off > len(b): return False
+    if off == len(b): return True
+    return (b[off] & 0xC0) != 0x80
+NUMERIC_RE = re.compile(r'\A([vV]?[ \t]*)((?:[0-9]+\.){0,2})([0-9]+)')
+def numeric_expectation(s):
+    """(offset, kind) when the first failing thing is a numeric component above MAX / above u64"""
+    if len(s.encode()) > 256: return None
+    m = NUMERIC_RE.match(s)
+    if not m: return None
+    # find the first component that is too large
+    pos = len(m.group(1)); comps = [c for c in m.group(2).split('.') if c] + [m.group(3)]
+    # the regex is greedy on components: re-walk from the start
+    rest = s[pos:]
+    for k in range(3):
+        mm = re.match(r'[0-9]+', rest)
+        if not mm: return None
+        n = int(mm.group(0))
+        if n > MAX:
+            return (len(s[:pos].encode()), 'parseint' if n >= U64 else ('maxint', str(n)))
+        pos += mm.end(); rest = s[pos:]
+        if k < 2:
+            if not rest.startswith('.'): return None
+            pos += 1; rest = s[pos:]
+    return None
+
+RANGE_BAD = ['', ' ', 'foo', '||', ' || ', 'foo || bar', '>=1.2.3 <1.0.0', '1.2.3.4', '>1.y', '~', '^', '>=', '1 - ', ' - ', '\n', 'é', '1.2.3\n', 'a\nb || c',
+             '>2 <1', '<0.0.0-0', '>x', '<*', '=1.2 =1.3', '900719925474100', '1.2.3 - 0.0.1', 'x' * 300, '\U0001F600', '||||', '>= <=', 'v', '1.2.', '.1', '-', '+', '1..2']
+def gen_errors(tier, rng):
+    cases, meta = gen_vparse(tier, rng)
+    extra = []
+    for s in RANGE_BAD:
+        extra.append(dump(['rparse', S(s)])); extra.append(dump(['errdiag', 'r', S(s)]))
+    for _ in range(300 if tier == 'quick' else 20000):
+        s = ''.join(rng.choice(['a', 'y', '.', '-', '+', '>', '<', '=', '~', '^', '|', ' ', '\n', 'é', '1', 'q']) for _ in range(rng.randint(0, 8)))
+        extra.append(dump(['rparse', S(s)])); extra.append(dump(['errdiag', 'r', S(s)]))
+    meta = dict(meta, range_error_inputs=len(extra) // 2)
+    meta['what'] += '; %d range texts that fail to parse (garbage-only, empty, unsatisfiable, multi-line, multi-byte)' % (len(extra) // 2)
+    return cases + extra, meta
+
+def eval_errors(triples, tier, rng):
+    import families as F
+    fails = []; nontrivial = 0; certs = []
+    dist = {'version_errors': 0, 'range_errors': 0, 'maxlen': 0, 'maxint': 0, 'parseint': 0, 'context': 0, 'other': 0, 'offset_nonzero': 0, 'multiline': 0, 'diagnostics_rendered': 0}
+    rejected = []
+    for c, o, v in triples:
+        pc = parse(c)
+        if pc[0] == 'errdiag':
+            if o == 'noerr': continue
+            dist['diagnostics_rendered'] += 1
+            if o == 'panic' or o.startswith('(bad'):
+                fails.append({'what': 'the miette diagnostic of the error for %r cannot be rendered: %s' % (str(pc[2]), o[:200]), 'case': c, 'input': [str(pc[2])], 'kind': 'err-diag'})
+            continue
+        if pc[0] not in ('vparse', 'rparse'): continue
+        s = str(pc[1]); r = dec_vparse(o) if pc[0] == 'vparse' else dec_rparse_err(o)
+        if r[0] == 'panic':
+            fails.append({'what': '%s::parse panicked on %r' % ('Version' if pc[0] == 'vparse' else 'Range', s), 'case': c, 'input': [s], 'kind': 'err-panic'}); continue
+        if r[0] != 'err': continue
+        _, kind, inp, off, loc = r
+        which = 'Version' if pc[0] == 'vparse' else 'Range'
+        dist['version_errors' if pc[0] == 'vparse' else 'range_errors'] += 1
+        kname = kind if isinstance(kind, str) else kind[0]
+        dist[kname if kname in dist else ('context' if kname == 'ctx' else 'other')] += 1
+        if off: dist['offset_nonzero'] += 1; nontrivial += 1
+        if '\n' in s: dist['multiline'] += 1
+        def bad(msg, k): fails.append({'what': '%s::parse(%r): %s' % (which, s, msg), 'case': c, 'input': [s], 'kind': k})
+        if inp != s: bad('error.input() is %r, not the string that was passed in' % inp, 'err-input'); continue
+        if not is_boundary(s, off): bad('error.offset() = %d is not a character boundary inside the input (%d bytes)' % (off, len(s.encode())), 'err-offset'); continue
+        if loc == 'panic': bad('error.location() panicked (offset %d)' % off, 'err-location'); continue
+        if loc != py_line_col(s, off): bad('error.location() = %s, but offset %d is line/column %s' % (loc, off, py_line_col(s, off)), 'err-location'); continue
+        if pc[0] == 'rparse':
+            if kind != 'novalid': bad('kind is %s, expected NoValidRanges' % (kind,), 'err-kind')
+            continue
+        if len(s.encode()) > 256:
+            if kind != 'maxlen': bad('kind is %s for an over-long input, expected MaxLengthError' % (kind,), 'err-kind')
+            continue
+        exp = numeric_expectation(s)
+        if exp is not None:
+            eoff, ekind = exp
+            if kind != ekind or off != eoff:
+                bad('kind %s at offset %d, expected %s at offset %d (the too-large component)' % (kind, off, ekind, eoff), 'err-kind')
+        elif kind in ('maxlen', 'novalid', 'parseint') or (not isinstance(kind, str) and kind[0] == 'maxint'):
+            bad('kind %s reported although no component is too large and the input is not over-long' % (kind,), 'err-kind')
+        if len(certs) < 2000 and rng.random() < 0.02 and len(s) < 40:
+            certs.append('match vparse %s with inr e => (e_offset e, location e) | inl _ => (0, Panic) end = (%d, Ok (%d, %d))' % (F.g_str(s), off, loc[0], loc[1]))
+    # every rejected version string also goes through the diagnostics (second phase, a sample in quick)
+    rej = [str(parse(c)[1]) for c, o, v in triples if parse(c)[0] == 'vparse' and o.startswith('(err')]
+    sample = rej if tier != 'quick' else rng.sample(rej, min(len(rej), 6000))
+    more = fam_sets.RUNNER([dump(['errdiag', 'v', S(s)]) for s in sample])
+    for c2, o2, _ in more:
+        dist['diagnostics_rendered'] += 1
+        if o2 == 'panic' or o2.startswith('(bad') or o2 == 'noerr':
+            fails.append({'what': 'the miette diagnostic of the error for %r cannot be rendered: %s' % (str(parse(c2)[2]), o2[:200]), 'case': c2, 'input': [str(parse(c2)[2])], 'kind': 'err-diag'})
+    return {'failures': fails[:40], 'nontrivial': nontrivial, 'distribution': dist, 'certs': certs}
+
+def dec_rparse_err(o):
+    if o == 'panic': return ('panic',)
+    po = parse(o)
+    if po[0] == 'ok': return ('ok', None)
+    kind = po[1] if isinstance(po[1], str) else (po[1][0], str(po[1][1]))
+    loc = po[4] if po[4] == 'panic' else (int(po[4][1]), int(po[4][2]))
+    return ('err', kind, str(po[2]), int(po[3]), loc)
